@@ -8,6 +8,7 @@ import (
 	"strings"
 	"sync"
 	"testing"
+	"time"
 
 	"github.com/hyperjumptech/grule-rule-engine/ast"
 	"pgregory.net/rapid"
@@ -68,6 +69,11 @@ func c09Run(cc *c09Case) ([]string, map[string]interface{}, error) {
 	var v []string
 	info := map[string]interface{}{}
 	k := len(cc.States)
+	// a request for a knowledge base the library does not hold is answered with an error, and has no effect on
+	// what follows
+	if _, merr := lib.NewKnowledgeBaseInstance("NoSuchKnowledgeBase", "0.0.0"); merr == nil {
+		v = append(v, "NewKnowledgeBaseInstance for a name the library does not hold returned no error")
+	}
 	// (a) instance creation succeeds, repeatedly
 	kbs := make([]*ast.KnowledgeBase, k)
 	for i := range kbs {
@@ -311,7 +317,26 @@ func TestC09(t *testing.T) {
 		var info map[string]interface{}
 		var err error
 		for i := 0; i < repsFor()/2+1; i++ {
-			v, info, err = c09Run(cc)
+			// (under a watchdog: an instance request that never returns - a lock that is not released - is a
+			// violation, not a wedged worker)
+			type outcome struct {
+				v    []string
+				info map[string]interface{}
+				err  error
+			}
+			done := make(chan outcome, 1)
+			go func() {
+				v, info, err := c09Run(cc)
+				done <- outcome{v, info, err}
+			}()
+			select {
+			case o := <-done:
+				v, info, err = o.v, o.info, o.err
+			case <-time.After(30 * time.Second):
+				msg := "creating and running instances did not finish within 30 s (a call on the library or an instance never returned)\n--- rules ---\n" + cc.Run.Text
+				path := col.Violation("C09", "C09/did_not_return", msg, cc)
+				rt.Fatalf("C09 violated: %s (replay %s)", msg, path)
+			}
 			if err != nil {
 				rt.Fatalf("harness: %v\n%s", err, cc.Run.Text)
 			}
